@@ -430,7 +430,7 @@ func runHarness(sh *Shared, fn *ssa.Function) *HarnessResult {
 			res.VCsConst += in.vcsConst
 			res.Queries += sol.Queries
 			res.SolverTimeS += sol.Time.Seconds()
-			res.SolverErrors = append(res.SolverErrors, sol.Errors...)
+			res.SolverErrors = append(res.SolverErrors, append(sol.AllErrors, sol.Errors...)...)
 			for f := range in.funcsSeen {
 				funcs[describeFn(sh, f)] = true
 			}
@@ -502,11 +502,13 @@ func (in *Interp) runPath(fn *ssa.Function, prefix []int) (kind, msg string, vio
 	in.speculating = false
 	in.pathViol = nil
 	in.tb.vars = map[string]*T{}
-	in.sol.PopTo(0)
+	in.sol.BeginPath()
 	in.sol.Push()
 	defer func() {
 		r := recover()
-		in.sol.PopTo(0)
+		if !in.sol.dead {
+			in.sol.PopTo(0)
+		}
 		if r == nil {
 			return
 		}
